@@ -25,6 +25,21 @@ EXTRA = [
                                                      "m": {"type": "object", "additionalProperties": {"$ref": "#/definitions/Leaf"}}}},
             "Leaf": {"type": "object", "properties": {"k": {"$ref": "#/definitions/Kind"}}},
             "Kind": {"type": "string", "enum": ["x", "y"]}}})),
+    ("jsonschema", "definitions-differing-by-case", json.dumps({
+        "$schema": "http://json-schema.org/draft-07/schema#", "$ref": "#/definitions/Query",
+        "definitions": {
+            "Query": {"type": "object", "properties": {"current": {"$ref": "#/definitions/DataSource"}, "legacy": {"$ref": "#/definitions/Datasource"},
+                                                      "modes": {"type": "array", "items": {"$ref": "#/definitions/Mode"}}, "mode": {"$ref": "#/definitions/mode"}}},
+            "DataSource": {"type": "object", "properties": {"uid": {"type": "string"}}},
+            "Datasource": {"type": "object", "properties": {"name": {"type": "string"}}},
+            "Mode": {"type": "string", "enum": ["a", "b"]},
+            "mode": {"type": "integer"}}})),
+    ("openapi", "schemas-differing-by-case", json.dumps({
+        "openapi": "3.0.0", "info": {"title": "t", "version": "1"}, "paths": {},
+        "components": {"schemas": {
+            "Query": {"type": "object", "properties": {"current": {"$ref": "#/components/schemas/DataSource"}, "legacy": {"$ref": "#/components/schemas/Datasource"}}},
+            "DataSource": {"type": "object", "properties": {"uid": {"type": "string"}}},
+            "Datasource": {"type": "object", "properties": {"name": {"type": "string"}}}}}})),
     ("cue", "enum-member-constant-and-entry", "package %(pkg)s\n\n#Kind: \"x\" | \"y\" @cog(kind=\"enum\")\n#Leaf: {\n\tkind: #Kind & \"x\"\n\tnext?: #Leaf\n}\n#Root: {\n\tleaf: #Leaf\n\tall: [...#Leaf]\n\tbyName: [string]: #Leaf\n}\n"),
 ]
 
